@@ -198,8 +198,72 @@ MODEL_NAME = {"u_acq": "acq", "e_acq1": "acq", "e_acq2": "acq", "u_wtag": "wtag"
               "e_rdpol": "rdpol", "e_set": "set"}
 
 
+_DISCOVERED = None
+
+
+def discovered_cache_lines():
+    """source lines of engine.py that call the cache's get / set / clear, found by running one evaluation (miss, then
+    hit) and one set_policy with a cache that records its caller's line - so the mapping does not depend on what the
+    local variable holding the cache is called.  {stripped line text: access name}"""
+    global _DISCOVERED
+    if _DISCOVERED is None:
+        import linecache
+        import sys as _sys
+
+        found = {}
+        try:
+            from rbacx.core.engine import Guard
+            engf = os.path.realpath(engine_file())
+
+            class Spy:
+                def __init__(self):
+                    self.d = {}
+
+                def _note(self, what):
+                    f = _sys._getframe(2)
+                    for _ in range(6):
+                        if f is None:
+                            break
+                        if os.path.realpath(f.f_code.co_filename) == engf:
+                            found[linecache.getline(f.f_code.co_filename, f.f_lineno).strip()] = what
+                            break
+                        f = f.f_back
+
+                def get(self, key):
+                    self._note("get")
+                    return self.d.get(key)
+
+                def set(self, key, value, ttl=None):
+                    self._note("set")
+                    self.d[key] = value
+
+                def delete(self, key):
+                    self.d.pop(key, None)
+
+                def clear(self):
+                    self._note("clear")
+                    self.d.clear()
+
+            pols = policies("single")
+            g = Guard(copy.deepcopy(pols[0]), cache=Spy())
+            loop = asyncio.new_event_loop()
+            try:
+                loop.run_until_complete(g.evaluate_async(*make_req(0)))
+                loop.run_until_complete(g.evaluate_async(*make_req(0)))
+            finally:
+                loop.close()
+            g.set_policy(copy.deepcopy(pols[1]))
+        except Exception:  # noqa: BLE001  (fall back to the text patterns alone)
+            pass
+        _DISCOVERED = found
+    return _DISCOVERED
+
+
 def classify(text):
     t = text.strip()
+    d = discovered_cache_lines().get(t)
+    if d:
+        return d
     for name, rx in COARSE:
         if rx.search(t):
             return name
@@ -809,6 +873,7 @@ def extraction_checks(chk):
 
 
 def run(chk):
+    discovered_cache_lines()          # before any worker process is forked
     t0 = time.time()
     quick = chk.tier == "quick"
     rng = chk.rng
